@@ -228,6 +228,137 @@ func extractOpcodeState(repo string) (string, error) {
 		}
 		fmt.Fprintf(&sb, "  (%q, %q)%s\n", v[0], v[1], sep)
 	}
+	sb.WriteString("]\n\n")
+	pg, err := processGlobals(repo)
+	if err != nil {
+		return "", err
+	}
+	sb.WriteString("/-- process-wide registries: (package, package-level variable of slice/map type, kind, the functions\n")
+	sb.WriteString("    of the package that assign / append to / index-assign it) -/\n")
+	sb.WriteString("def pkgGlobals : List (String × String × String × List String) := [\n")
+	for i, g := range pg {
+		sep := ","
+		if i == len(pg)-1 {
+			sep = ""
+		}
+		ws := make([]string, len(g.writers))
+		for j, w := range g.writers {
+			ws[j] = fmt.Sprintf("%q", w)
+		}
+		fmt.Fprintf(&sb, "  (%q, %q, %q, [%s])%s\n", g.pkg, g.name, g.kind, strings.Join(ws, ", "), sep)
+	}
 	sb.WriteString("]\n\nend BMV.Gen.OpcodeState\n")
 	return sb.String(), nil
+}
+
+type pkgGlobal struct {
+	pkg, name, kind string
+	writers         []string
+}
+
+// processGlobals lists the package-level variables of slice or map type of pkg/bmnumbers and
+// pkg/procbuilder (the registries every simulation of the process shares) with the top-level
+// functions/methods that write them (assignment, append, index assignment, delete).
+func processGlobals(repo string) ([]pkgGlobal, error) {
+	var res []pkgGlobal
+	for _, pkg := range []string{"bmnumbers", "procbuilder"} {
+		dir := filepath.Join(repo, "pkg", pkg)
+		fset := token.NewFileSet()
+		ents, err := os.ReadDir(dir)
+		if err != nil {
+			return nil, err
+		}
+		var files []*ast.File
+		kinds := map[string]string{}
+		for _, e := range ents {
+			if e.IsDir() || !strings.HasSuffix(e.Name(), ".go") || strings.HasSuffix(e.Name(), "_test.go") {
+				continue
+			}
+			f, err := parser.ParseFile(fset, filepath.Join(dir, e.Name()), nil, parser.SkipObjectResolution)
+			if err != nil {
+				return nil, err
+			}
+			files = append(files, f)
+			for _, d := range f.Decls {
+				gd, ok := d.(*ast.GenDecl)
+				if !ok || gd.Tok != token.VAR {
+					continue
+				}
+				for _, sp := range gd.Specs {
+					vs := sp.(*ast.ValueSpec)
+					if vs.Type == nil {
+						continue
+					}
+					if k := refKind(vs.Type); k == "slice" || k == "map" {
+						for _, n := range vs.Names {
+							kinds[n.Name] = k
+						}
+					}
+				}
+			}
+		}
+		writers := map[string]map[string]bool{}
+		for _, f := range files {
+			for _, d := range f.Decls {
+				fd, ok := d.(*ast.FuncDecl)
+				if !ok || fd.Body == nil {
+					continue
+				}
+				fname := fd.Name.Name
+				if fd.Recv != nil && len(fd.Recv.List) == 1 {
+					t := fd.Recv.List[0].Type
+					if st, ok := t.(*ast.StarExpr); ok {
+						t = st.X
+					}
+					if id, ok := t.(*ast.Ident); ok {
+						fname = id.Name + "." + fname
+					}
+				}
+				locals := map[string]bool{}
+				mark := func(e ast.Expr) {
+					if id := rootIdent(e); id != "" && kinds[id] != "" && !locals[id] {
+						if writers[id] == nil {
+							writers[id] = map[string]bool{}
+						}
+						writers[id][fname] = true
+					}
+				}
+				ast.Inspect(fd.Body, func(x ast.Node) bool {
+					switch s := x.(type) {
+					case *ast.AssignStmt:
+						if s.Tok == token.DEFINE {
+							for _, l := range s.Lhs {
+								if id, ok := l.(*ast.Ident); ok {
+									locals[id.Name] = true
+								}
+							}
+						} else {
+							for _, l := range s.Lhs {
+								mark(l)
+							}
+						}
+					case *ast.CallExpr:
+						if id, ok := s.Fun.(*ast.Ident); ok && id.Name == "delete" && len(s.Args) > 0 {
+							mark(s.Args[0])
+						}
+					}
+					return true
+				})
+			}
+		}
+		var names []string
+		for n := range kinds {
+			names = append(names, n)
+		}
+		sort.Strings(names)
+		for _, n := range names {
+			var ws []string
+			for w := range writers[n] {
+				ws = append(ws, w)
+			}
+			sort.Strings(ws)
+			res = append(res, pkgGlobal{pkg, n, kinds[n], ws})
+		}
+	}
+	return res, nil
 }
